@@ -16,12 +16,12 @@ inductive DetachM (s : State) (b : Nat) (x : Buf) (t : Traits) : Out Nat → Pro
       DetachM s b x t (.fail s' e)
   | copied (s' : State) (z : Buf) (m : Nat) (cre : List Ev) : 2 ≤ x.ref → s'.hs = s.hs →
       (∀ c, s'.buf? c = if c = s.bufs.length then some z else if c = b then some { x with ref := x.ref - 1 } else s.buf? c) →
-      z.ref = 1 → z.traits = some t → GoodBuf z → s'.next = s.next + m → s'.log = s.log ++ cre → Creates x.toks s.next cre m →
+      z.ref = 1 → z.traits = some t → GoodBuf z → z.used ≤ x.used → s'.next = s.next + m → s'.log = s.log ++ cre → Creates x.toks s.next cre m →
       (s'.next ≤ tokLimit → z.toks = seqFrom s.next m) →
       DetachM s b x t (.ok s' s.bufs.length)
   | moved (s' : State) (z : Buf) (A T : List Nat) : x.ref = 1 → s'.hs = s.hs →
       (∀ c, s'.buf? c = if c = s.bufs.length then some z else if c = b then none else s.buf? c) →
-      z.ref = 1 → z.traits = some t → GoodBuf z → s'.next = s.next → s'.log = s.log ++ T.map Ev.fini →
+      z.ref = 1 → z.traits = some t → GoodBuf z → z.used ≤ x.used → s'.next = s.next → s'.log = s.log ++ T.map Ev.fini →
       x.toks = A ++ T → z.toks = A →
       DetachM s b x t (.ok s' s.bufs.length)
 
@@ -120,7 +120,13 @@ theorem detach_managed {s : State} {b : Nat} {x : Buf} {t : Traits} (inv : InvM 
             have : m * t.size ≤ (0 + k) * t.size := Nat.mul_le_mul_right _ (by have := sd.mle; omega)
             simp only [Buf.size] at qfit; omega
           obtain ⟨cre, crc, lg⟩ := sd.log
-          refine DetachM.copied s3 z m cre shared ?_ ?_ (by rw [sd.ref]; rfl) (sd.traits.trans rfl) (goodBuf_of (sd.traits.trans rfl) mt zu zfit)
+          have zle : z.used ≤ x.used := by
+            rw [zu, hu]
+            have kN : 0 + k = N := by
+              have : (0 + k) * t.size = N * t.size := by rw [Nat.zero_add, ← ek, cl]
+              exact Nat.eq_of_mul_eq_mul_right (by omega) this
+            exact Nat.mul_le_mul_right _ (by have := sd.mle; omega)
+          refine DetachM.copied s3 z m cre shared ?_ ?_ (by rw [sd.ref]; rfl) (sd.traits.trans rfl) (goodBuf_of (sd.traits.trans rfl) mt zu zfit) zle
             (by rw [sd.next, n2]; omega) ?_ (by rw [n2] at crc; simpa using crc) ?_
           · rw [sd.frame.hs, hh2]
           · intro c
@@ -220,7 +226,7 @@ theorem detach_managed {s : State} {b : Nat} {x : Buf} {t : Traits} (inv : InvM 
         have nl3 : s.bufs.length < s3.bufs.length := State.buf?_lt hz3
         refine DetachM.moved _ z (slotsFrom x.data t.size 0 (min N L)) (slotsFrom x.data t.size L (N - L)) r1 ?_ ?_ (by rw [← hz']; rfl)
           (by rw [← hz']; rfl) (goodBuf_of (by rw [← hz']; rfl) mt (by rw [← hz']) (by simp only [Buf.size, zdl]; omega))
-          ?_ ?_ ?_ ?_
+          (by rw [← hz', hu]; exact Nat.mul_le_mul_right _ (Nat.min_le_left _ _)) ?_ ?_ ?_ ?_
         · show s3.hs = _; rw [ob.hs, ← hs2]; rfl
         · intro c
           rw [State.buf?_freeBuf _ _ _ (by simp; exact l3'), State.buf?_setBuf _ _ _ _ nl3]
@@ -265,14 +271,14 @@ theorem ensure_step {amb : List Nat} {s : State} {h b : Nat} {x : Buf} {t : Trai
     match ensure s h b need n with
     | .fault _ => False
     | .fail s' _ => Step amb s s'
-    | .ok s' nb => Step amb s s' ∧ s'.handle h = some nb ∧ ∃ z, s'.buf? nb = some z ∧ z.traits = some t := by
+    | .ok s' nb => Step amb s s' ∧ s'.handle h = some nb ∧ ∃ z, s'.buf? nb = some z ∧ z.traits = some t ∧ z.used ≤ x.used := by
   have hlt := State.handle_lt hh
   have hnb : s.buf? s.bufs.length = none := State.buf?_ge_length s _ (Nat.le_refl _)
   have blt := State.buf?_lt hb
   have nbne : s.bufs.length ≠ b := by omega
   unfold ensure
   cases need with
-  | false => exact ⟨Step.refl gs, hh, x, hb, xt⟩
+  | false => exact ⟨Step.refl gs, hh, x, hb, xt, Nat.le_refl _⟩
   | true =>
     simp only [if_true]
     have dm := detach_managed gs.inv hb xt n
@@ -281,9 +287,9 @@ theorem ensure_step {amb : List Nat} {s : State} {h b : Nat} {x : Buf} {t : Trai
     | same =>
       simp only
       rw [setHandle_self hh]
-      exact ⟨Step.refl gs, hh, x, hb, xt⟩
+      exact ⟨Step.refl gs, hh, x, hb, xt, Nat.le_refl _⟩
     | refused s' e hbuf hhs hlog hnx => exact step_of_same gs hbuf hhs hlog hnx
-    | copied s' z m cre shared hhs hbuf zr zt zg hnx hlog crc ztoks =>
+    | copied s' z m cre shared hhs hbuf zr zt zg zle hnx hlog crc ztoks =>
       simp only
       have hbuf' : ∀ c, (s'.setHandle h (some s.bufs.length)).buf? c =
           if c = s.bufs.length then some z else
@@ -304,7 +310,7 @@ theorem ensure_step {amb : List Nat} {s : State} {h b : Nat} {x : Buf} {t : Trai
           · have : ¬ some b = some c := by intro e; cases e; exact e2 rfl
             simp [e2, this]
       obtain ⟨inv', hh'⟩ := gs.inv.retarget (s' := s'.setHandle h (some s.bufs.length)) hlt hnb (by simp [hhs]) hbuf' zr zg
-      refine ⟨?_, hh', z, by rw [hbuf']; simp, zt⟩
+      refine ⟨?_, hh', z, by rw [hbuf']; simp, zt, zle⟩
       have hbb : (s'.setHandle h (some s.bufs.length)).buf? b = some { x with ref := x.ref - 1 } := by
         have bne : ¬ b = s.bufs.length := fun e => nbne e.symm
         rw [State.buf?_setHandle, hbuf b]; simp [bne]
@@ -332,7 +338,7 @@ theorem ensure_step {amb : List Nat} {s : State} {h b : Nat} {x : Buf} {t : Trai
       · intro t
         rw [List.mem_append, mem_seqFrom]
         simp
-    | moved s' z A T r1 hhs hbuf zr zt zg hnx hlog xtk ztk =>
+    | moved s' z A T r1 hhs hbuf zr zt zg zle hnx hlog xtk ztk =>
       simp only
       have hbuf' : ∀ c, (s'.setHandle h (some s.bufs.length)).buf? c =
           if c = s.bufs.length then some z else
@@ -351,7 +357,7 @@ theorem ensure_step {amb : List Nat} {s : State} {h b : Nat} {x : Buf} {t : Trai
           · have : ¬ some b = some c := by intro e; cases e; exact e2 rfl
             simp [e2, this]
       obtain ⟨inv', hh'⟩ := gs.inv.retarget (s' := s'.setHandle h (some s.bufs.length)) hlt hnb (by simp [hhs]) hbuf' zr zg
-      refine ⟨?_, hh', z, by rw [hbuf']; simp, zt⟩
+      refine ⟨?_, hh', z, by rw [hbuf']; simp, zt, zle⟩
       have hbb : (s'.setHandle h (some s.bufs.length)).buf? b = none := by
         have bne : ¬ b = s.bufs.length := fun e => nbne e.symm
         rw [State.buf?_setHandle, hbuf b]; simp [bne]
